@@ -79,6 +79,12 @@ def mutations(src):
            once(src, '        let len = self.splits.target.len();\n        if self.splits.next_start > len {', '        let len: usize = self.splits.target.len();\n        if self.splits.next_start > len {', 'w2'))
     yield ('(control) SplitN::next: `&self.splits.target[start..len]` -> `&self.splits.target[start..]` (same meaning: `len` is the length)',
            once(src, 'return Some(Ok(&self.splits.target[start..len]));', 'return Some(Ok(&self.splits.target[start..]));', 'w3'))
+    yield ('(control) try_replacen (fast path): `String::with_capacity(text.len())` -> `String::with_capacity(text.len() + 0)` (same meaning; '
+           'neither can overflow: a `len()` is at most isize::MAX)',
+           first(src, '            let mut new = String::with_capacity(text.len());\n', '            let mut new = String::with_capacity(text.len() + 0);\n', 'w9'))
+    yield ('(u) try_replacen (captures path): `String::with_capacity(text.len() * limit)`',
+           once(src, '        let mut new = String::with_capacity(text.len());\n        let mut last_match = 0;\n        for (i, cap) in it {',
+                '        let mut new = String::with_capacity(text.len() * limit);\n        let mut last_match = 0;\n        for (i, cap) in it {', 'w10'))
     yield ('(p) SplitN::next: the rest starts at `self.splits.matches.last_end.min(len)`',
            once(src, '            let start = self.splits.next_start;\n', '            let start = self.splits.matches.last_end.min(len);\n', 'w4'))
     yield ('(q) try_replacen: an early `if text.is_empty() { return Ok(Cow::Borrowed(text)); }`',
@@ -93,11 +99,8 @@ def mutations(src):
            once(src, '            Some(Err(e)) => Some(Err(e)),\n        }\n    }\n}\n\nimpl<\'r, \'h> core::iter::FusedIterator for Split',
                 '            Some(Err(e)) => Some(Err(e)).map(|x| x),\n        }\n    }\n}\n\nimpl<\'r, \'h> core::iter::FusedIterator for Split', 's'))
 
-# seeded changes INSIDE a translated function that leave the generated Lean unchanged: why
-IDENTICAL_WHY = {
-    'seeded/C11/e': 'BLIND SPOT: the change is the argument of `String::with_capacity` in try_replacen (`text.len() + rep.len() * limit`); a '
-                    'capacity has no counterpart in the model, and that `usize` arithmetic does not overflow is an assumption of the translators',
-}
+# seeded changes INSIDE a translated function that leave the generated Lean unchanged: why (none at present)
+IDENTICAL_WHY = {}
 
 
 def locate(line):
